@@ -4,6 +4,7 @@ import (
 	"fmt"
 	"go/token"
 	"go/types"
+	"strings"
 
 	"golang.org/x/tools/go/ssa"
 )
@@ -282,6 +283,53 @@ func ruleBatchBuffer(c *Ctx) {
 		}}, newSettledEv(sr, "flush", callMatcher(F(flush)))}, all, "a save returns success only with the region in the buffer and no failed flush")
 }
 
+// ruleStorageErrorDiscipline: what PD loads back after a restart is what the
+// kv layer returned; a read or write error that is turned into "nothing there"
+// or "done" silently changes the reloaded state. Every function of
+// server/core's storage files that calls the kv layer reports success only when
+// each Load/LoadRange/Save/Remove made so far returned a nil error.
+func ruleStorageErrorDiscipline(c *Ctx) {
+	P := c.P
+	rule := c.Prop + "/storage-errors"
+	base := func(m string) Callee { return P.IMethod("server/kv", "Base", m) }
+	kvCalls := []Callee{base("Load"), base("LoadRange"), base("Save"), base("Remove")}
+	// best-effort calls whose error is deliberately not part of the result, confirmed by reading
+	bestEffort := map[string]string{
+		"(*server/core.Storage).LoadMinServiceGCSafePoint": "Remove", // pruning of an expired service entry: retried on the next load
+	}
+	n := 0
+	for _, fn := range P.Funcs {
+		if fnPkgPath(fn) != modPath+"/server/core" || fn.Parent() != nil || P.isScaffold(fn) || !fn.Pos().IsValid() {
+			continue
+		}
+		file := P.Fset.Position(fn.Pos()).Filename
+		if !strings.HasSuffix(file, "/storage.go") && !strings.HasSuffix(file, "/region_storage.go") {
+			continue
+		}
+		res := fn.Signature.Results()
+		if res.Len() == 0 || !isErrorType(res.At(res.Len()-1).Type()) {
+			continue
+		}
+		var evs []Ev
+		for _, k := range kvCalls {
+			if bestEffort[fnName(fn)] == k.CName() {
+				continue
+			}
+			if len(callsIn(fn, false, k)) > 0 {
+				evs = append(evs, newSettledEv(fn, k.CName(), callMatcher(k)))
+			}
+		}
+		if len(evs) == 0 {
+			continue
+		}
+		n++
+		c.needOnSuccess(rule, fn, evs, all, "success is reported only when every kv call made so far returned a nil error")
+	}
+	if n < 12 {
+		c.Undec(rule, "storage functions calling the kv layer", "at least 12", "", fmt.Sprintf("found %d", n))
+	}
+}
+
 // ruleRegionBackendSelection: region records live either in the dedicated
 // region storage or in the default backend, selected by the useRegionStorage
 // flag. Load, save and delete must agree on that selection, otherwise a record
@@ -351,6 +399,7 @@ func init() {
 	register("C17", "Persisted stores and regions are loaded back completely and pruned consistently", func(c *Ctx) {
 		c.Group("C17/key-format", "all store/region key builders (storage, bootstrap, weights) render ids with the same zero-padded width and segments", func() { ruleKeyFormats(c) })
 		c.Group("C17/load-prunes", "loading deletes every region the callback reports from the backend being read, pages by last id + 1 and stops only on a short page; items live under their own id's key", func() { ruleLoadAndPrune(c) })
+		c.Group("C17/storage-errors", "no storage function reports success after a kv call whose error was not found nil", func() { ruleStorageErrorDiscipline(c) })
 		c.Group("C17/backend-selection", "load, save and delete of region records select the backend by the same useRegionStorage test", func() { ruleRegionBackendSelection(c) })
 		c.Group("C17/batch-buffer", "region batch buffer: fields under its lock, written under the lock, emptied only after a successful write, flushed before close", func() { ruleBatchBuffer(c) })
 	})
